@@ -643,8 +643,14 @@ impl<'a> Exec<'a> {
                     let m = self.model(file)?;
                     (m.table.clone(), m.sources.clone())
                 };
-                if names.iter().collect::<BTreeSet<_>>().len() != names.len() {
-                    return Err(Stop::Invalid("duplicate names".into()));
+                // a name may be given more than once: the request still names the same set of samples
+                let repeated = names.iter().collect::<BTreeSet<_>>().len() != names.len();
+                if repeated && table.names.iter().collect::<BTreeSet<_>>().len() != table.names.len() {
+                    return Err(Stop::Invalid("repeated names in the request and equal names in the file".into()));
+                }
+                let rep = if repeated { "[name-given-twice]" } else { "" };
+                if repeated {
+                    probe("delete_request_with_a_name_given_twice");
                 }
                 let expected = table.delete(names);
                 let before = self.snapshot();
@@ -671,7 +677,7 @@ impl<'a> Exec<'a> {
                     Err(why) => {
                         fault("refuse_delete");
                         if !r.refused() {
-                            return viol("delete:bad-names-not-refused", format!("{why}: delete ended with {}", r.status_str()));
+                            return viol(&format!("delete:bad-names-not-refused{rep}"), format!("{why} (request {names:?}): delete ended with {}", r.status_str()));
                         }
                         if self.snapshot() != before {
                             return viol("delete:refusal-changed-files", format!("refused delete ({why}) changed a file"));
@@ -679,13 +685,13 @@ impl<'a> Exec<'a> {
                     }
                     Ok(exp) => {
                         if !r.ok() {
-                            let sig = if *via_file { "delete:names-file-route-fails" } else { "delete:fails" };
-                            return viol(sig, format!("delete {names:?} from {file} (names file: {via_file}) ended with {}: {}", r.status_str(), r.stderr_tail()));
+                            let sig = format!("{}{rep}", if *via_file { "delete:names-file-route-fails" } else { "delete:fails" });
+                            return viol(&sig, format!("delete {names:?} from {file} (names file: {via_file}) ended with {}: {}", r.status_str(), r.stderr_tail()));
                         }
                         let target = out.clone().unwrap_or(file.clone());
                         let got = self.inspect(&target, "delete")?;
                         if got != exp {
-                            return viol("delete:differs-from-model", format!("delete {names:?}: {}", exp.diff(&got)));
+                            return viol(&format!("delete:differs-from-model{rep}"), format!("delete {names:?}: {}", exp.diff(&got)));
                         }
                         let srcs: Option<Vec<usize>> = sources.map(|s| {
                             s.into_iter().filter(|i| !names.contains(&self.c.samples[*i].name)).collect()
@@ -1336,6 +1342,14 @@ impl StoreWorkload {
                         files.insert(out, names.into_iter().filter(|x| *x != gone).collect());
                     }
                 }
+                // sometimes one input has been weeded down to zero k-mers (its samples remain); with
+                // the shuffle below it is the first, a middle or the last argument
+                if !dup_names && rng.chance(10) {
+                    extra.insert("nomatch.fa".into(), crate::util::wrap_fasta("nm", &rng.dna(k + 20), 0));
+                    let f = rng.pick(&files.keys().cloned().collect::<Vec<_>>()).clone();
+                    let o = WeedOpts { weed: Some("nomatch.fa".into()), reverse: true, min_count: 0, ambig_missing: false, filter: SiteFilter::NoFilter, ambig_mask: false, no_gap_only: false };
+                    ops.push(Op::Weed { file: f, o, out: None });
+                }
                 // a random merge tree over the parts, merged files merged again
                 let mut pool: Vec<String> = files.keys().cloned().collect();
                 rng.shuffle(&mut pool);
@@ -1380,9 +1394,16 @@ impl StoreWorkload {
                     let roll = rng.below(10);
                     if roll == 0 {
                         // refusals
-                        let bad: Vec<String> = match rng.below(4) {
+                        let bad: Vec<String> = match rng.below(5) {
                             0 => vec!["nosuchsample".into()],
                             1 => names.clone(),
+                            4 => {
+                                // every sample named, one of them twice
+                                let mut all = names.clone();
+                                all.push(rng.pick(&names).clone());
+                                rng.shuffle(&mut all);
+                                all
+                            }
                             2 => vec![names[0].clone(), "nosuchsample".into()],
                             _ => vec![],
                         };
@@ -1394,6 +1415,14 @@ impl StoreWorkload {
                     let mut del: Vec<String> = sub.iter().map(|i| names[*i].clone()).collect();
                     // names in any order, not only the file's column order
                     rng.shuffle(&mut del);
+                    if rng.chance(12) {
+                        // the same name given twice (or three times) in one request
+                        for _ in 0..rng.range(1, 2) {
+                            let again = rng.pick(&del).clone();
+                            let at = rng.below(del.len() + 1);
+                            del.insert(at, again);
+                        }
+                    }
                     let out = match rng.below(10) {
                         0..=3 => Some(newname("d")),
                         4 => Some(format!("{}.v{}", newname("d"), rng.range(1, 9))), // a dot in the prefix
